@@ -1206,6 +1206,9 @@ func (r *Reader) start(offsetsByPartition map[topicPartition]int64) {
 	r.cancel() // always cancel the previous reader
 	r.cancel = cancel
 	r.version++
+	// The goroutines below run without r.mutex: they must not read r.version,
+	// which the next call to start increments under the mutex.
+	version := r.version
 
 	r.join.Add(len(offsetsByPartition))
 	for key, offset := range offsetsByPartition {
@@ -1225,7 +1228,7 @@ func (r *Reader) start(offsetsByPartition map[topicPartition]int64) {
 				readBatchTimeout: r.config.ReadBatchTimeout,
 				backoffDelayMin:  r.config.ReadBackoffMin,
 				backoffDelayMax:  r.config.ReadBackoffMax,
-				version:          r.version,
+				version:          version,
 				msgs:             r.msgs,
 				stats:            r.stats,
 				isolationLevel:   r.config.IsolationLevel,
